@@ -372,9 +372,9 @@ def ctor_kwargs(cls, attr, value):
         # documented: with reorient_faces the constructor flips inward facing triangles, i.e. rewrites `faces`
         kw["reorient_faces"] = "skip"
         try:    # an index equal to the number of vertices is tried with ALL body checks skipped (nothing but the index check can reject it)
-            if int(np.max(np.asarray(value, dtype=float))) == 4:
+            if isinstance(value, (list, tuple, np.ndarray)) and int(np.max(np.asarray(value, dtype=float))) == 4:
                 kw.update(MESH_SKIP)
-        except (TypeError, ValueError):
+        except (TypeError, ValueError, OverflowError):
             pass
     if cls == "TriangularMesh" and attr == "vertices":
         # companion faces with indices inside the given vertex list whenever it has a first extent
